@@ -43,6 +43,17 @@ Maximum common induced subgraph (partial maps = `Map`s whose domain is a sublist
 * `mcisSizeP P`, `allMCISP P` on a `Problem`;  `mcisSize g sg`, `allMCIS g sg` with colours;
   spec `IsCommon P m`  (`allMCIS_sound`, `allMCIS_max`, `allMCIS_complete`).
 
+Theorems (all in `VermouthProofs/Iso.lean`, namespace `Iso`, core Lean only, no hypotheses other
+than `Nodup` of node keys):
+* `mem_extend_iff`, `mem_allMaps_iff`  : `m ∈ extend P ps [] ↔ IsMatch P ps m`;  `extend_nodup`, `allMaps_nodup`;
+* `mem_isosOn_iff`   : on a node list `S`: `m ∈ isosOn (graphProblem g sg pred) S ↔ dom m = S ∧ IsIndIsoOn g sg pred S m.toFun`;
+* `mem_allIsosP_iff`, `allIsosP_sound`, `allIsosP_complete`, `allIsosP_nodup` (colour versions restated in `VermouthProps/C06.lean`);
+* `ecol_comm`, `ecol_isSome_iff`, `ncol_isSome_iff`  : reading of the encoding;
+* `oneRepPerClass_iff`, `coversUpToAut_iff`, `autEquivB_iff`  : the checkers against `AutEquiv`;
+* `autEquiv_equivalence` (reflexive / symmetric / transitive; `isAut_id`, `isAut_comp`, `isAut_inv`),
+  `classReps_accepted` (the greedy representatives pass the checker);
+* `mem_allMCISP_iff`, `allMCISP_sound`, `allMCISP_max`, `allMCISP_complete`, `allMCISP_ne_nil`, `allMCISP_nodup`.
+
 Cost: exponential; meant for patterns of ≤ ~10 nodes.  Callers should list the
 pattern nodes in an order in which every node is adjacent to an earlier one
 (the theorems hold for any order; pruning is much better for such an order).
